@@ -47,11 +47,23 @@ def rule_charge_spellings(ck, repo, R):
 def _ladder_returns(func, var='bond'):
     """{order constant | 'else': set of returned string constants} for an if/elif ladder on `var == K`"""
     from .astutil import if_chain
-    tops = [s for s in func.node.body if isinstance(s, ast.If) and any(t is not None and src(t).startswith(f'{var} == ') for t, _ in if_chain(s))]
-    if len(tops) != 1:
+    body_ = func.node.body
+    tops = [s for s in body_ if isinstance(s, ast.If) and any(t is not None and src(t).startswith(f'{var} == ') for t, _ in if_chain(s))]
+    if not tops:
         raise AnalysisError(f'{func.fq}: `{var} == K` ladder not found')
+    # one if/elif/else chain, or the flattened form: consecutive `if var == K: ... return` statements followed by the default return(s)
+    entries = []
+    for i_, top in enumerate(tops):
+        ch = if_chain(top)
+        if len(tops) > 1 and any(t is None for t, _ in ch) and top is not tops[-1]:
+            raise AnalysisError(f'{func.fq}: `{var} == K` ladder has an else arm before its last statement')
+        entries += ch
+    if len(tops) > 1 or not any(t is None for t, _ in entries):
+        tail = body_[body_.index(tops[-1]) + 1:]
+        if tail and not any(t is None for t, _ in entries):
+            entries.append((None, tail))
     out = {}
-    for test, blk in if_chain(tops[0]):
+    for test, blk in entries:
         key = 'else'
         if test is not None:
             if not (isinstance(test, ast.Compare) and src(test.left) == var and isinstance(test.ops[0], ast.Eq) and isinstance(test.comparators[0], ast.Constant)):
@@ -339,7 +351,9 @@ def rule_closure_slots(ck, repo, R):
               file=f.file, line=rs.lineno, func='parser', construct=src(rs))
     ck.decide(bool(pos_atom), R, 'open:atom-recorded', elts, f'the closure record {elts} does not hold the opening atom `{atom}`', file=f.file, line=rs.lineno, func='parser')
     # close site: unpacking of the record
-    unp = [n for n in ast.walk(f.node) if isinstance(n, ast.Assign) and isinstance(n.targets[0], ast.Tuple) and isinstance(n.value, ast.Subscript) and src(n.value.value) == 'cycles']
+    unp = [n for n in ast.walk(f.node) if isinstance(n, ast.Assign) and isinstance(n.targets[0], ast.Tuple) and
+           (isinstance(n.value, ast.Subscript) and src(n.value.value) == 'cycles' or
+            isinstance(n.value, ast.Call) and src(n.value.func) in ('cycles.pop', 'cycles.get'))]  # cycles[token] / cycles.pop(token)
     ck.require(len(unp) == 1, 'closure record unpacking not found')
     names = [src(e) for e in unp[0].targets[0].elts]
     ck.decide(len(names) == len(elts), R, 'close:record-shape', names, f'record is written with {len(elts)} fields and read with {len(names)}', file=f.file, line=unp[0].lineno, func='parser')
@@ -414,4 +428,4 @@ def rule_cx_radical_lists(ck, repo, R, modules):
             ck.decide(ok, R, f'{mname}:{cut}@{groups}', why, f'{mname}: {why}: indices after the first one are lost (or the prefix is parsed as an index)',
                       file=m.relpath, line=line, construct=pat)
         shapes[mname] = (pat, tuple(sorted({c for c, _ in cuts})))
-    ck.floor(R, 3)
+    ck.floor(R, 2)  # one consumer per reader at least (the SMILES reader may parse the block once or once per branch)
